@@ -32,7 +32,7 @@ func c34(sum *lib.Summary) {
 	}
 	nfrag, next, ntx := 240, 700, 120
 	if *tier == "thorough" {
-		nfrag, next, ntx = 1600, 6000, 1000
+		nfrag, next, ntx = 1200, 6000, 1000
 	}
 	sum.Rule = "every generated program is run by the interpreter and by the VM from identical state; result value, error class and " +
 		"error kind (Go type of the Cadence error), ProgramLog sequence, events and (transactions) the committed ledger must be equal. " +
